@@ -29,7 +29,7 @@ for d in sorted(glob.glob("seeded/*/")):
             return p, r.returncode, rules
         with ThreadPoolExecutor(8) as ex:
             for p, rc, rules in ex.map(one, props):
-                if rc != 0:
+                if rc == 1:
                     res[p] = {"exit": rc, "rules": rules}
         matrix[sid] = {"applies": True, "caught_by": res}
     finally:
